@@ -21,7 +21,7 @@ RULE = (
 )
 ASSUMPTIONS = [
     "CPython 3.12 itertools/heapq/builtins are the reference; batched(strict=True) uses the documented 3.13 rule",
-    "no NaN / non-reflexive equality / partial orders; merge inputs are constructed pre-sorted",
+    "no NaN / non-reflexive equality / partial orders among the ITEMS (a NaN sentinel for iter() is generated); merge inputs are constructed pre-sorted",
     "accumulate(initial=None) is not generated (None means 'absent' for itertools only)",
     "exceptions are compared by type; documented deviations (accumulate empty, tee handle) are in the reference",
 ]
@@ -83,6 +83,10 @@ def cases(draw, name, tier):
         for s in case["srcs"]:
             if s.get("alias") is not None and case["srcs"][s["alias"]]["fl"] == "list":
                 case["srcs"][s["alias"]]["fl"] = "iter"  # aliasing is about one-shot iterators
+    if case["plan"] and draw(st.integers(0, 2)) == 0:
+        # ask again after the end: an exhausted iterator stays exhausted (and yields nothing new)
+        outs = max(case["params"].get("n", 1), 1) if name == "tee" else 1
+        case["plan"] = case["plan"] + [["repoll", draw(st.integers(0, outs - 1))] for _ in range(draw(st.integers(1, 3)))]
     case["keep"] = True  # signatures of everything yielded are taken again at the very end
     lists = [i for i, s in enumerate(case["srcs"]) if s["fl"] == "list" and s.get("alias") is None]
     if lists and case["plan"] and draw(st.integers(0, 3)) == 0:
